@@ -19,7 +19,17 @@ STUBSETS = {
     'once': [('std::sync::Once::call_once', 'crate::stubs::s_call_once')],
 }
 
+STUBSETS['case'] = [
+    ('core::unicode::conversions::to_lower', 'crate::stubs::st_to_lower'),
+    ('core::unicode::unicode_data::lowercase::lookup', 'crate::stubs::st_lowercase_lookup'),
+]
+STUBSETS['width'] = [('precis_profiles::usernames::get_decomposition_mapping', 'crate::stubs::st_width')]
+
 STUB_DOC = {
+    'case': 'S-CASE: core::unicode::conversions::to_lower and unicode_data::lowercase::lookup replaced by a model on the witness '
+            'alphabet SIGMA_CASE (validated against the real std functions by harness c10_model_valid; outside the alphabet = inconclusive)',
+    'width': 'S-WIDTH: usernames::get_decomposition_mapping replaced by the UnicodeData 16.0.0 oracle function (Layer A harness '
+             'c11_width_one shows the real table lookup equals it for every scalar value)',
     'str': 'S-STR: String::new/reserve/push/From<&str>/to_owned replaced by a fixed-capacity model (no growth; capacity overflow = inconclusive)',
     'fmt': 'S-FMT: alloc::fmt::format returns an empty String (error messages are not part of any property)',
     'once': 'S-ONCE: Once::call_once runs the closure in place (single-threaded model of lazy init)',
@@ -28,7 +38,7 @@ STUB_DOC = {
 
 class H:
     def __init__(self, prop, name, body, crate='ext', unwind=None, stubs=(), extra_stubs=(), tiers=('quick', 'thorough'),
-                 timeout=600, mem_gb=12, funcs=(), bound='', note='', expect_unsat_cover=()):
+                 timeout=600, mem_gb=12, funcs=(), bound='', note='', expect_unsat_cover=(), memsafe='never', reach='thorough', unwindset=()):
         self.prop = prop
         self.name = name
         self.body = body
@@ -43,6 +53,25 @@ class H:
         self.bound = bound
         self.note = note
         self.expect_unsat_cover = tuple(expect_unsat_cover)
+        # per-loop bounds: [(regex on the mangled loop id, N)]; resolved against `cbmc --show-loops` on every run.
+        # Loops that match nothing keep the #[kani::unwind] default; unwinding assertions stay on for all of them.
+        self.unwindset = tuple(unwindset)
+        # pointer checks of std/stub code ('never' | 'thorough' | 'always'): /repo contains no unsafe code, so these
+        # only re-check std; Rust-level panics (bounds, overflow, unwrap, str slicing) are assertion checks and stay on.
+        self.memsafe = memsafe
+        # Kani's per-assertion reachability checks ('never' | 'thorough' | 'always'); explicit covers are always on
+        self.reach = reach
+
+    def kani_flags(self, tier):
+        f = []
+        on = lambda v: v == 'always' or (v == 'thorough' and tier == 'thorough')
+        if not on(self.memsafe):
+            f.append('--no-memory-safety-checks')
+        if not on(self.reach):
+            f.append('--no-assertion-reach-checks')
+        if f:
+            f = ['-Z', 'unstable-options'] + f
+        return f
 
     def stub_pairs(self):
         out = []
@@ -93,6 +122,42 @@ HARNESSES = [
     H('C12', 'c12_opaque_map_n5', 'crate::c12::opaque_map::<5, 20, _>', unwind=7, stubs=('str',), tiers=T, timeout=3000, mem_gb=20,
       funcs=['OpaqueString::additional_mapping_rule', 'common::is_non_ascii_space'] + F_SEARCH,
       bound='strings of 0..=5 characters, every character any Unicode scalar value'),
+
+    # ---------------------------------------------------------------- C10
+    H('C10', 'c10_case_exact_n1', 'crate::c10::case_exact::<1, 4, 3, _>', unwind=4, stubs=('str',), timeout=900,
+      unwindset=(('16binary_search_by', 13), ('17case_mapping_rule', 2), ('10next_match', 2), ('8try_fold', 4), ('18try_from_fn_erased', 4)),
+      funcs=['common::case_mapping_rule (via UsernameCaseMapped::case_mapping_rule)', 'common::has_lowercase_mapping', 'char::is_lowercase',
+             'char::to_lowercase (core::unicode conversions tables)'],
+      bound='exactly one character, every Unicode scalar value', expect_unsat_cover=('COVER: unchanged 3/4-byte character first, mapped character last',)),
+    H('C10', 'c10_case_exact_n2', 'crate::c10::case_exact::<2, 8, 6, _>', unwind=7, stubs=('str',), tiers=T, timeout=3400, mem_gb=24,
+      unwindset=(('16binary_search_by', 13), ('17case_mapping_rule', 3), ('10next_match', 3), ('8try_fold', 4), ('18try_from_fn_erased', 4)),
+      funcs=['common::case_mapping_rule', 'common::has_lowercase_mapping', 'char::is_lowercase', 'char::to_lowercase'],
+      bound='exactly two characters, each any Unicode scalar value'),
+    H('C10', 'c10_model_valid', 'crate::c10::model_valid', unwind=13, timeout=600,
+      funcs=['char::to_lowercase', 'char::is_lowercase (real std tables, concrete witnesses)'],
+      bound='every character of the witness alphabet SIGMA_CASE'),
+    H('C10', 'c10_case_sigma_n3', 'crate::c10::case_sigma::<3, 12, 9, _>', unwind=11, stubs=('str', 'case'), timeout=900,
+      funcs=['common::case_mapping_rule', 'common::has_lowercase_mapping', 'char::is_lowercase (ASCII fast paths)', 'char::to_lowercase (iterator)'],
+      bound='strings of 0..=3 characters over SIGMA_CASE (23 witnesses: every combination of cased/uncased, lower/upper/title, '
+            '1-4 byte, growing/shrinking/multi-character mappings)'),
+    H('C10', 'c10_case_sigma_n4', 'crate::c10::case_sigma::<4, 16, 12, _>', unwind=14, stubs=('str', 'case'), tiers=T, timeout=3000, mem_gb=20,
+      funcs=['common::case_mapping_rule', 'common::has_lowercase_mapping', 'char::to_lowercase (iterator)'],
+      bound='strings of 0..=4 characters over SIGMA_CASE'),
+    H('C10', 'c10_nick_one', 'crate::c10::nick_one', unwind=4, unwindset=(('16binary_search_by', 13), ('17case_mapping_rule', 2), ('10next_match', 2), ('8try_fold', 4), ('18try_from_fn_erased', 4)),
+      funcs=['common::case_mapping_rule (via Nickname::case_mapping_rule)', 'char::to_lowercase'],
+      bound='one character, every Unicode scalar value'),
+    # ---------------------------------------------------------------- C11
+    H('C11', 'c11_width_one', 'crate::c11::width_one', unwind=3, stubs=('str',), timeout=900,
+      unwindset=(('16binary_search_by', 9), ('10next_match', 2), ('18width_mapping_rule', 2)),
+      funcs=['usernames::width_mapping_rule', 'usernames::get_decomposition_mapping', 'usernames::has_width_mapping',
+             'WIDE_NARROW_MAPPING (generated, 16.0.0)'] + F_SEARCH,
+      bound='exactly one character, every Unicode scalar value'),
+    H('C11', 'c11_width_map_n3', 'crate::c11::width_map::<3, 12, _>', unwind=5, stubs=('str', 'width'), timeout=900,
+      funcs=['usernames::width_mapping_rule (both username profiles)', 'usernames::has_width_mapping'],
+      bound='strings of 0..=3 characters, every character any Unicode scalar value; table lookup stubbed by the oracle (S-WIDTH)'),
+    H('C11', 'c11_width_map_n4', 'crate::c11::width_map::<4, 16, _>', unwind=6, stubs=('str', 'width'), tiers=T, timeout=3000, mem_gb=20,
+      funcs=['usernames::width_mapping_rule (both username profiles)', 'usernames::has_width_mapping'],
+      bound='strings of 0..=4 characters, every character any Unicode scalar value; table lookup stubbed by the oracle (S-WIDTH)'),
 ]
 
 PROPS = ['C%02d' % i for i in range(1, 19)]
